@@ -189,6 +189,15 @@ type instrNode struct {
 	src1  string
 	src2  string
 	desc  string
+	// callsFn reports how often the instruction's callback has been invoked so far (every recorded call)
+	callsFn func() int
+}
+
+func (n instrNode) calls() int {
+	if n.callsFn == nil {
+		return 0
+	}
+	return n.callsFn()
 }
 
 func (n instrNode) coq() string {
@@ -294,6 +303,7 @@ func genInstr(r *hlib.Rng, cols []genCol, avail *[]genCol, malformed bool) instr
 	n.dst = dstName(r, cols, malformed && r.Chance(1, 3))
 	k := r.Intn(5)
 	rec := []string{}
+	n.callsFn = func() int { return len(rec) }
 	all := *avail
 	kindOf := func(name string) string {
 		for i := len(all) - 1; i >= 0; i-- {
@@ -691,6 +701,31 @@ func applyCase(r *hlib.Rng, s *hlib.Suite) {
 		}
 	default:
 		desc := map[string]interface{}{"op": "apply", "instructions": descs, "derivation": hist, "props": allProps}
+		if k >= 2 {
+			// once an instruction has failed, no callback of a later instruction may be invoked (C10)
+			firstFail := -1
+			for j := 1; j < k && firstFail < 0; j++ {
+				var pf qframe.QFrame
+				if p, _ := hlib.Recover(func() { pf = qf.Apply(goI[:j]...) }); !p && pf.Err != nil {
+					firstFail = j
+				}
+			}
+			if firstFail >= 0 {
+				before := make([]int, k)
+				for j := range instrs {
+					before[j] = instrs[j].calls()
+				}
+				hlib.Recover(func() { _ = qf.Apply(goI...) })
+				for j := firstFail; j < k; j++ {
+					if instrs[j].calls() != before[j] {
+						d10 := map[string]interface{}{"op": "apply", "instructions": descs, "derivation": hist, "props": []string{"C10"}}
+						s.Fail(s.NextID(), fmt.Sprintf("instruction %d failed, yet the callback of instruction %d was invoked afterwards", firstFail, j+1), d10, "")
+						break
+					}
+				}
+				s.Count("apply-callbacks-after-failure-checked")
+			}
+		}
 		if od, ok := runOp(s, qf, desc, func() qframe.QFrame { return qf.Apply(goI...) }); ok {
 			dumps = []qframe.VerifFrame{in, od}
 			s.Count(fmt.Sprintf("apply-%d-instr", k))
